@@ -71,8 +71,8 @@ var _ hash.Hash
 //@ ensures [C07+C15+C20.fsr-exp] result == nil ==> int16(r.RExp) == specSigned(uint16(data[24]/16), 4) && int16(r.BExp) == specSigned(uint16(data[24]%16), 4)
 //@ ensures [C07.fsr-flags] result == nil ==> r.NominalReadingSpecified == bit(data[25], 0) && r.NormalMaxSpecified == bit(data[25], 1) && r.NormalMinSpecified == bit(data[25], 2)
 //@ ensures [C07.fsr-readings] result == nil ==> r.NominalReading == data[26] && r.NormalMax == data[27] && r.NormalMin == data[28] && r.SensorMax == data[29] && r.SensorMin == data[30]
-//@ ensures [C07.fsr-idlen] result == nil ==> len(r.Identity) == int(data[42]%32)
-//@ ensures [C07.fsr-id8bit] result == nil && (data[42]/64 == 3 || data[42]/64 == 0) ==> forall(qk, 0, int(data[42]%32), r.Identity[qk] == data[43+qk])
+//@ ensures [C07+C20.fsr-idlen] result == nil ==> len(r.Identity) == int(data[42]%32)
+//@ ensures [C07+C20.fsr-id8bit] result == nil && (data[42]/64 == 3 || data[42]/64 == 0) ==> forall(qk, 0, int(data[42]%32), r.Identity[qk] == data[43+qk])
 //@ ensures [C07.fsr-idbcd] result == nil && data[42]/64 == 1 ==> forall(qk, 0, int(data[42]%32), r.Identity[qk] == specBCDPlusChar(data[43+qk/2], qk))
 //@ ensures [C07.fsr-idpacked] result == nil && data[42]/64 == 2 ==> forall(qk, 0, int(data[42]%32), r.Identity[qk] == specPacked6Char(data[43:], qk))
 //@ ensures [C07.fsr-layer] result == nil ==> aliases(r.Contents, data, 0, 43+ite(data[42]/64 == 1, (int(data[42]%32)+1)/2, ite(data[42]/64 == 2, (int(data[42]%32)*6+7)/8, int(data[42]%32)))) &&
@@ -133,9 +133,9 @@ var _ hash.Hash
 //@ props C05
 
 //@ func (*GetDeviceIDRsp).DecodeFromBytes
-//@ props C05 C17 C07
+//@ props C05 C17 C07 C20
 //@ ensures [C07.devid-accept] (result == nil) == (len(data) >= 11)
-//@ ensures [C07.devid-id] result == nil ==> g.ID == data[0] && g.ProvidesSDRs == bit(data[1], 7) && g.Revision == data[1]%16 && g.Available == !bit(data[2], 7) &&
+//@ ensures [C07+C20.devid-id] result == nil ==> g.ID == data[0] && g.ProvidesSDRs == bit(data[1], 7) && g.Revision == data[1]%16 && g.Available == !bit(data[2], 7) &&
 //@    g.MajorFirmwareRevision == data[2]%128 && g.MinorFirmwareRevision == (data[3]/16)*10+data[3]%16
 //@ ensures [C07.devid-version] result == nil ==> g.MajorIPMIVersion == data[4]%16 && g.MinorIPMIVersion == data[4]/16
 //@ ensures [C07.devid-support] result == nil ==> g.SupportsChassisDevice == bit(data[5], 7) && g.SupportsBridgeDevice == bit(data[5], 6) && g.SupportsIPMBEventGeneratorDevice == bit(data[5], 5) &&
@@ -177,7 +177,7 @@ var _ hash.Hash
 //@ func (*GetSensorReadingRsp).DecodeFromBytes
 //@ props C05 C17 C07 C15
 //@ ensures [C07.reading-accept] (result == nil) == (len(data) >= 3)
-//@ ensures [C07.reading] result == nil ==> r.Reading == data[0] && r.EventMessagesEnabled == bit(data[1], 7) && r.ScanningEnabled == bit(data[1], 6) && r.ReadingUnavailable == bit(data[1], 5)
+//@ ensures [C07+C15.reading] result == nil ==> r.Reading == data[0] && r.EventMessagesEnabled == bit(data[1], 7) && r.ScanningEnabled == bit(data[1], 6) && r.ReadingUnavailable == bit(data[1], 5)
 //@ ensures [C07.reading-layer] result == nil ==> aliases(r.Contents, data, 0, ite(len(data) > 3, 4, 3)) && aliases(r.Payload, data, ite(len(data) > 3, 4, 3), len(data))
 
 // ---- get_session_info.go (22.20)
